@@ -18,6 +18,7 @@ Fixpoint obs_s (v : Verif.C01.Lisp.value) : obs :=
   | Verif.C01.Lisp.VBool b => OBool b
   | Verif.C01.Lisp.VInt z => OInt z
   | Verif.C01.Lisp.VVec l => OVec (map obs_s l)
+  | Verif.C01.Lisp.VExc c p => OExc c (obs_s p)
   end.
 
 Definition res_s (r : option (Verif.C01.Lisp.value * Verif.C01.Lisp.trace)) : result :=
